@@ -159,6 +159,13 @@ func loopsOver(fn *ssa.Function, overPat string) [][2]*ssa.BasicBlock {
 // the start of an iteration back to the loop header, or to a successful return,
 // passes gate g ("no skip path").
 func forAllIterations(e *Env, rule string, fn *ssa.Function, overPat string, cfg gcfg, g gate.Gate) {
+	forAllIterationsFrom(e, rule, fn, overPat, cfg, g, 0)
+}
+
+// forAllIterationsFrom is forAllIterations for a requirement on the elements
+// from index maxStart on: a hand-written index loop may begin at any index up
+// to maxStart (for i := 1; ...), not later.
+func forAllIterationsFrom(e *Env, rule string, fn *ssa.Function, overPat string, cfg gcfg, g gate.Gate, maxStart int64) {
 	if fn == nil {
 		return
 	}
@@ -171,6 +178,11 @@ func forAllIterations(e *Env, rule string, fn *ssa.Function, overPat string, cfg
 	ctx := gate.New(e.P, e.P.VTA(), cfg.assume...)
 	for i, l := range loops {
 		key := fmt.Sprintf("%s:forall(%s)#%d:%s", name, overPat, i+1, g.Key)
+		if start := loopStart(l[0]); start > maxStart {
+			x := e.R.Fail(rule, key, e.P.Pos(fn.Pos()), fmt.Sprintf("the loop over %s starts at index %d: the elements in front of it are not visited", overPat, start))
+			x.Config = cfg.name
+			continue
+		}
 		ok, w := ctx.EstablishedFrom(fn, l[1], gate.DefaultOutcome(fn), g, map[*ssa.BasicBlock]bool{l[0]: true})
 		if ok {
 			// no early successful exit: the loop may be left from inside the body
@@ -346,6 +358,11 @@ func forAllIterationsAt(e *Env, rule string, fn *ssa.Function, l [2]*ssa.BasicBl
 	name := load.FuncName(fn)
 	ctx := gate.New(e.P, e.P.VTA(), cfg.assume...)
 	key := fmt.Sprintf("%s:forall(%s):%s", name, label, g.Key)
+	if start := loopStart(l[0]); start > 0 && isLenLoop(l[0]) {
+		x := e.R.Fail(rule, key, e.P.Pos(fn.Pos()), fmt.Sprintf("the %s starts at index %d: the elements in front of it are not visited", label, start))
+		x.Config = cfg.name
+		return
+	}
 	ok, w := ctx.EstablishedFrom(fn, l[1], gate.DefaultOutcome(fn), g, map[*ssa.BasicBlock]bool{l[0]: true})
 	if !ok {
 		x := e.R.Fail(rule, key, e.P.Pos(fn.Pos()), "an iteration of the "+label+" can finish without "+g.Desc, w...)
@@ -374,9 +391,28 @@ func countedLoop(e *Env, rule string, fn *ssa.Function, boundPat string, gates .
 		if !ok {
 			continue
 		}
-		if c, ok := ifi.Cond.(*ssa.BinOp); ok && c.Op.String() == "<" && prov.Match(boundPat, prov.Of(c.Y)) {
-			if _, isPhi := c.X.(*ssa.Phi); isPhi {
-				loops = append(loops, [2]*ssa.BasicBlock{b, b.Succs[0]})
+		c, ok := ifi.Cond.(*ssa.BinOp)
+		if !ok {
+			continue
+		}
+		ph, isPhi := c.X.(*ssa.Phi)
+		if !isPhi {
+			continue
+		}
+		if c.Op.String() == "<" && prov.Match(boundPat, prov.Of(c.Y)) {
+			loops = append(loops, [2]*ssa.BasicBlock{b, b.Succs[0]})
+			continue
+		}
+		// the same number of iterations counted down: for r := bound - k; r > 0; r--
+		if _, yc := c.Y.(*ssa.Const); yc && (c.Op.String() == ">" || c.Op.String() == ">=") && len(ph.Edges) == 2 {
+			for _, ed := range ph.Edges {
+				if bo, ok := ed.(*ssa.BinOp); ok && bo.X == ssa.Value(ph) {
+					continue // the decrement
+				}
+				t := prov.Of(ed)
+				if prov.Match(boundPat, t) || prov.Match("("+boundPat+" - const:*)", t) {
+					loops = append(loops, [2]*ssa.BasicBlock{b, b.Succs[0]})
+				}
 			}
 		}
 	}
@@ -611,4 +647,39 @@ func beWrite(key, dest string, width int, val string, ok bool) gate.Gate {
 		mk("binary.Write", dest, "global:binary.BigEndian", val),
 		mk("(*bytes.Buffer).Write", dest, arr), mk("invoke:io.Writer.Write", dest, arr), mk("(*bundle.CountingWriter).Write", dest, arr),
 		mk("(*bytes.Buffer).Write", dest, enc), mk("invoke:io.Writer.Write", dest, enc))
+}
+
+// loopStart: the first index visited by the loop whose header is h (0 for a
+// range loop, k for "for i := k; i < len(x); i++").
+func loopStart(h *ssa.BasicBlock) int64 {
+	ifi, ok := h.Instrs[len(h.Instrs)-1].(*ssa.If)
+	if !ok {
+		return 0
+	}
+	c, ok := ifi.Cond.(*ssa.BinOp)
+	if !ok {
+		return 0
+	}
+	if ph, ok := c.X.(*ssa.Phi); ok && ph.Comment != "rangeindex" {
+		return prov.LoopStart(ph)
+	}
+	return 0
+}
+
+// isLenLoop: the loop header compares its counter with len(...).
+func isLenLoop(h *ssa.BasicBlock) bool {
+	ifi, ok := h.Instrs[len(h.Instrs)-1].(*ssa.If)
+	if !ok {
+		return false
+	}
+	c, ok := ifi.Cond.(*ssa.BinOp)
+	if !ok {
+		return false
+	}
+	call, ok := c.Y.(*ssa.Call)
+	if !ok {
+		return false
+	}
+	bi, ok := call.Call.Value.(*ssa.Builtin)
+	return ok && bi.Name() == "len"
 }
